@@ -12,7 +12,8 @@ Stage B: TLC (MC_C18_gen) chooses structures (0..3 sublists x 0..3 instructions 
          encode-again histories on one structure, checks that an encoding is always Marshal of the current value
          (plus the growth law), and prints every history; the driver replays each on ONE live object.
 Stage C: every event is judged by TLC (Trace_C18): octets = Marshal, lengths/projection = Proj, PLMN octets per
-         TS 24.008, encodings decode to their structure, no panic, no hang."""
+         TS 24.008, encodings decode to their structure, no panic, no hang.
+Added after seeded rounds 3-5: encodings held across other encodings; PLMN set on an object that already carries one; decode into a container that already received a message of the same type; part contents crossing 2^15; lists built with ONE reused working variable, MCC/MNC reported by built entries judged."""
 import json, os, sys
 sys.path.insert(0, os.path.dirname(os.path.dirname(os.path.abspath(__file__))))
 from vlib import *
